@@ -537,7 +537,7 @@ func init() {
 		bfs.Register("c20/"+c.name, func() bfs.Scenario { return build(c) })
 	}
 	reg.Register(reg.Check{Property: "C20", Level: "model_checking", Run: func(run *ev.Run) {
-		names := []string{"s113-vp2", "s112-vp1"}
+		names := []string{"s112-vp1", "s113-vp2"}
 		deadline := 80 * time.Second
 		if ev.Tier() == "thorough" {
 			names = nil
@@ -553,8 +553,9 @@ func init() {
 		}
 		exh := true
 		begin := time.Now()
-		for _, n := range names {
-			left := deadline - time.Since(begin) // one budget shared by the scenarios
+		for i, n := range names {
+			// one budget: every scenario gets an equal share of what is left
+			left := (deadline - time.Since(begin)) / time.Duration(len(names)-i)
 			if left < time.Second {
 				left = time.Second
 			}
